@@ -135,6 +135,11 @@ func (c *containerServer) sendLoop() {
 			for _, f := range rep.FileToClose {
 				f.Close()
 			}
+			if isRejected(err) {
+				// the reply was refused (too large, too many descriptors) but the host waits for
+				// one: tell it so, the command failed and the connection is still fine
+				err = c.socket.SendMsg(reply{Error: &errorReply{Msg: "reply refused: " + err.Error()}}, unixsocket.Msg{})
+			}
 			if err != nil {
 				c.socketError(err)
 				return
